@@ -359,6 +359,7 @@ func run(c Case) (res vkit.Result) {
 		return ""
 	}
 	nontrivial, endedOne := false, false
+	lateOK := map[string]bool{} // probes published towards a broker that could not be reached at the time
 	downA, downB := -1, -1
 	for step, op := range c.Ops {
 		switch op.K {
@@ -555,9 +556,30 @@ func run(c Case) (res vkit.Result) {
 					}
 				}
 			}
+			// brokers the publishing broker believes have a subscriber but cannot reach: it will try, and the transport will refuse
+			var lost []int
+			failedBefore := map[int]int{}
+			if c.Class == "P" {
+				for _, s := range brokers[op.B].S.VerifTrie().Lookup(ssidOf(op.Ch), func(s message.Subscriber) bool { return s.Type() == message.SubscriberRemote }) {
+					if d, ok := idxOf[s.ID()]; ok && !reachable(op.B, d) {
+						lost = append(lost, d)
+						failedBefore[d] = net.FailedCount(op.B, d)
+					}
+				}
+			}
 			payload := []byte(fmt.Sprintf("probe-%d", step))
 			if _, err := pubs[op.B].Publish(uint16(step+1), key+"/"+op.Ch, payload, false); err != nil {
 				return failf("step %d: publish: %v", step, err)
+			}
+			// ... and only once it has (the peer's flush ticker may be late on a busy machine) does the history go on: a frame
+			// still queued when the link returns would be delivered late, which is fine but is not what the next steps count
+			for _, d := range lost {
+				deadline := time.Now().Add(5 * time.Second) // synchronisation only, not an oracle
+				for net.FailedCount(op.B, d) == failedBefore[d] && time.Now().Before(deadline) {
+					time.Sleep(time.Millisecond)
+				}
+				labels["unicast-refused-no-route"] = true
+				lateOK[string(payload)] = true // should that frame leave late after all, its late arrival is not a duplicate of anything
 			}
 			// forwarding is asynchronous (the peer's 5 ms flush ticker): wait for the expected frames, then a little longer
 			deadline := time.Now().Add(vkit.WaitCeiling)
@@ -600,6 +622,16 @@ func run(c Case) (res vkit.Result) {
 							want = 1
 						}
 					}
+				}
+				if len(lateOK) > 0 {
+					kept := got[:0]
+					for _, p := range got {
+						if string(p.Payload) != string(payload) && lateOK[string(p.Payload)] {
+							continue
+						}
+						kept = append(kept, p)
+					}
+					got = kept
 				}
 				if len(got) != want {
 					return failf("step %d: publish on %q at broker %d: client %d at broker %d (subscribed to %v) received %d copies, expected %d", step, op.Ch, op.B, i, m.broker, keysOfS(m.subs), len(got), want)
